@@ -26,7 +26,7 @@ First generation (x/auction), one seized vault:
   dutch.v1.tick  now twaC actC twaD actD  <ok|panic> <rec1> <balances> <misc>
 rec1 := `closed` | `out=..;in=..;price=..;init=..;endp=..;inp=..;start=..;end=..`   misc := `net=<n|none>;supply=..`
 Monitors (on REAL values): pay_le_target receive_le_collateral posted_price price_monotone price_in_range
-price_in_range_slack close_distributes reserve_draw_skipped start_price start_record.
+price_in_range_slack close_distributes reserve_draw_skipped limit_fill_overcharge start_price start_record.
 -/
 -- DRIVER: prefix=dutch ns=Comdex.Drv.Dutch
 namespace Comdex.Drv.Dutch
@@ -82,6 +82,7 @@ structure St where
   begin_ : Option Obs := none
   drawnReal : Int := 0
   shortReal : Int := 0
+  overReal : Int := 0      -- limit deposits debited beyond what the auction charged (auctions.go:567-572)
   closedSeen : Bool := false
   v1 : V1St := {}
 
@@ -202,7 +203,7 @@ def priceMons (seq : String) (e : Env) (prev : Option Auc) (cur : Auc) (now : In
 
 /-- compare model and real after an op; evaluate the balance/ledger monitors on the REAL observation -/
 def finish (st : St) (seq : String) (outcomeModelOk : Bool) (outcome : String) (o : Obs) (isBid : Bool)
-    (consumed : List (String × Int)) (extraMons : List String) : St × List String :=
+    (consumed : List (String × Int)) (extraMons : List String) (chargedModel : Int := 0) : St × List String :=
   let real_ok := outcome = "ok"
   let mo := modelObs st o
   let d1 := if isBid ∧ outcomeModelOk != real_ok then [s!"DIFF\t{seq}\toutcome model={outcomeModelOk} impl={outcome}"] else []
@@ -215,7 +216,11 @@ def finish (st : St) (seq : String) (outcomeModelOk : Bool) (outcome : String) (
   let realPaid := st.realPaid + paidNow
   let realRecv := st.realRecv + recvNow
   let consumedTot := consumed.foldl (fun acc (_, c) => acc + c) 0
-  let baseD := st.baseD - consumedTot
+  -- limit fills: the deposit records were debited by `consumedTot`; the auction (bank-checked model) charged `chargedModel`
+  let over : Int := if ¬ isBid ∧ consumedTot > chargedModel then consumedTot - chargedModel else 0
+  let mOver := mon seq "limit_fill_overcharge" (decide (over = 0))
+  let overReal := st.overReal + over
+  let baseD := st.baseD - (consumedTot - over)
   let (_, resD0) := balOf prev "reserve"
   let (_, resD1) := balOf o "reserve"
   let bidLike := isBid ∨ consumed.length > 0
@@ -239,14 +244,14 @@ def finish (st : St) (seq : String) (outcomeModelOk : Bool) (outcome : String) (
         let dlt (n : String) : Int := (balOf o n).2 - (balOf b0 n).2
         let burned := b0.supply - o.supply
         let out := burned + dlt "collector" + dlt "keeper" + dlt "initiator" + dlt "pool" + (o.ext - st.ext0)
-        let proceeds := decide (realPaid + drawn + shortReal = out) && decide (out = st.e.target)
+        let proceeds := decide (realPaid - overReal + drawn + shortReal = out) && decide (out = st.e.target)
         let ownerOk := decide ((balOf o "owner").1 - (balOf b0 "owner").1 = st.e.coll0 - realRecv)
         mon seq "close_distributes" (custody && proceeds && ownerOk)
     else []
-  let st' := { st with prev := some o, realPaid := realPaid, realRecv := realRecv, baseD := baseD, drawnReal := drawn, shortReal := shortReal,
+  let st' := { st with prev := some o, realPaid := realPaid, realRecv := realRecv, baseD := baseD, drawnReal := drawn, shortReal := shortReal, overReal := overReal,
                        closedSeen := st.closedSeen || closing }
   let st' := if d2.isEmpty then st' else adopt st' o
-  (st', d1 ++ d2 ++ m0 ++ m1 ++ m2 ++ m3 ++ extraMons)
+  (st', d1 ++ d2 ++ m0 ++ mOver ++ m1 ++ m2 ++ m3 ++ extraMons)
 
 def pureLine (seq : String) (m : Except Unit Int) (o v : String) (okTag : String := "ok") : List String :=
   let ms := match m with | .ok x => s!"{okTag}\t{x}" | .error _ => "fail\t-"
@@ -542,7 +547,7 @@ def handle (st : St) (seq : String) (f : List String) : St × List String :=
         | none => []
       let dpanic := if o = "ok" then [] else [s!"DIFF\t{seq}\tbegin blocker panicked"]
       let st1 := { st with s := s' }
-      let (st2, outs) := finish st1 seq true "ok" obs false consumed pm
+      let (st2, outs) := finish st1 seq true "ok" obs false consumed pm (s'.paid - st.s.paid)
       (st2, dpanic ++ outs)
     | _, _, _, _, _, _, _, _ => (st, [s!"BAD\t{seq}\ttick"])
   | ["dutch.limit", who, prem, amt, o, r, b, m] =>
